@@ -32,8 +32,10 @@ def _c(nodes, v):
 
 
 def fit_expr(model, k):
-    """the fit function of a pre-set model as expr nodes: var 0 = x, var 1..k = parameters, in the
-    operation order of qexpy/fitting/utils.py: FITTERS (hand-mirrored; guarded by fitters_guard)"""
+    """a function of the model's family as expr nodes (var 0 = x, var 1..k = parameters).  Used
+    ONLY to synthesise plausible data for a fit (and, for "custom", as the user-defined fit
+    function itself).  The model side never sees it for the pre-set models: there the formula is the
+    generated `Gen.fitRule` of Generated/Fitters.lean (see model_line)."""
     nd = [["var", i] for i in range(k + 1)]
     x = 0
     if model == "linear":
@@ -61,25 +63,6 @@ def fit_expr(model, k):
     else:
         raise KeyError(model)
     return nd, r
-
-
-FITTERS_SHA = "c2f3d1"  # set by fitters_guard() on first use when empty; see below
-_EXPECTED_FITTERS = (
-    "{lit.LIN: lambda x, a, b: a * x + b, lit.QUAD: lambda x, a, b, c: a * x ** 2 + b * x + c, "
-    "lit.POLY: lambda x, *coeffs: functools.reduce(lambda a, b: a * x + b, coeffs), "
-    "lit.EXPO: lambda x, c, a: c * op.exp(-a * x), lit.GAUSS: lambda x, norm, mean, std: norm / "
-    "op.sqrt(2 * op.pi * std ** 2) * op.exp(-1 / 2 * (x - mean) ** 2 / std ** 2)}")
-
-
-def fitters_guard():
-    """the hand-mirrored fit formulas above are valid for exactly this FITTERS source"""
-    src = open(os.path.join(REPO, "qexpy", "fitting", "utils.py"), encoding="utf-8").read()
-    for node in ast.walk(ast.parse(src)):
-        if isinstance(node, ast.Assign) and any(
-                isinstance(t, ast.Name) and t.id == "FITTERS" for t in node.targets):
-            got = ast.unparse(node.value)
-            return got == _EXPECTED_FITTERS, got
-    return False, "FITTERS not found"
 
 
 def py_eval_nodes(q, nodes, root, x, pars):
@@ -745,14 +728,18 @@ def model_line(case, obs):
             objs.append(h)
         else:
             a = obs["api"][idx]
-            nodes, root = fit_expr(o["model"], o["k"])
             vals = [0.0] + [v for v, _ in a["params"]]
             errs = [0.0] + [e for _, e in a["params"]]
             rho = [[i + 1, j + 1, bits(r)] for i, j, r in a["corr"]]
             d = a["data"]
             rg = a["xrange"] if a["xrange"] else [min(d["xs"]), max(d["xs"])]
-            fn = {"t": "function", "nodes": nodes, "root": root, "vals": _b(vals), "errs": _b(errs),
+            fn = {"t": "function", "vals": _b(vals), "errs": _b(errs),
                   "rho": rho, "range": _b(rg), "label": o["label"]}
+            if o["model"] == "custom":
+                fn["nodes"], fn["root"] = fit_expr(o["model"], o["k"])
+            else:
+                # pre-set model: the driver builds the formula from the generated Gen.fitRule
+                fn["model"], fn["k"] = o["model"], o["k"]
             data = {"t": "dataset", "xs": _b(d["xs"]), "ys": _b(d["ys"]), "xerr": _b(d["xerr"]),
                     "yerr": _b(d["yerr"]), "range": None, "label": ""}
             objs.append({"t": "fit", "fn": fn, "data": data})
